@@ -93,4 +93,34 @@ def signedMax2 (w rw a b : Nat) : Nat := (if Bits.toSigned w a < Bits.toSigned w
 def signedMin2 (w rw a b : Nat) : Nat := (if Bits.toSigned w b < Bits.toSigned w a then b else a) % 2 ^ rw
 def swap (raw rbw a b sw : Nat) : Nat × Nat := if sw % 2 = 1 then (b % 2 ^ raw, a % 2 ^ rbw) else (a % 2 ^ raw, b % 2 ^ rbw)
 
+/-! ### exact characterisations outside the documented domain (what the blocks REALLY compute; C08 `_wide` / `_wrap` /
+    `_general` theorems).  They are not the documentation's claim — where they differ from it a negative theorem with a
+    concrete witness says so. -/
+
+/-- SumOfMinterms for an ARBITRARY list of Python ints (duplicates, negative and out-of-range entries, dense lists):
+    membership of `a` in the list of the `aw`-bit wrap-arounds -/
+def sumOfMintermsWrap (aw a : Nat) (ms : List Int) : Nat := b2n (ms.any fun m => decide (a = Bits.put aw m))
+
+/-- PriorityEncoder for ANY mix of widths.  `lw` = width of the most prioritised input (all `last` / `not(last)` helper
+    wires take it), `rw` = width of the outputs.  The most prioritised input is copied; every other output keeps bit `k`
+    only when `k < lw` (the `not(last)` wire has no bit above `lw`) and no input of higher priority has bit `k` set -/
+def priorityEncoderW (lw rw : Nat) (inc : Bool) (a : List Nat) : List Nat :=
+  (List.range a.length).map fun i => ofBitFn rw fun k =>
+    (a.getD i 0).testBit k &&
+      ((if inc then a.drop (i + 1) else a.take i).isEmpty ||
+        (decide (k < lw) && (if inc then a.drop (i + 1) else a.take i).all fun x => !x.testBit k))
+
+/-- Equal on an `rw`-bit result wire: the block ends in Not / Nor on `rw` bits, so the result is the `rw`-bit complement
+    of the 1-bit flag "a differs from b": `2^rw − 1` when equal, `2^rw − 2` when different (0 / 1 only for `rw = 1`) -/
+def equalW (rw a b : Nat) : Nat := not1 rw (b2n (decide (a ≠ b)))
+/-- EqualConstant on an `rw`-bit result wire, any Python int constant: width 1 with constant 0 is a Not on `rw` bits,
+    everything else is the 0/1 flag of `equalConstantWrap` (zero extended) -/
+def equalConstantW (aw rw a : Nat) (v : Int) : Nat :=
+  if aw = 1 ∧ v = 0 then not1 rw a else equalConstantWrap aw a v % 2 ^ rw
+/-- NotEqualConstant on an `rw`-bit result wire: `rw`-bit complement of the 1-bit EqualConstant flag -/
+def notEqualConstantW (aw rw a : Nat) (v : Int) : Nat := not1 rw (equalConstantWrap aw a v)
+/-- Comparator with `gt` / `eq` result wires of `gw` / `ew` bits: `(gt, eq, lt)`.  `eq` of 0-bit operands is a Not on `ew` bits -/
+def comparatorW (w gw ew a b : Nat) : Nat × Nat × Nat :=
+  (b2n (decide (b < a)) % 2 ^ gw, (if w = 0 then 2 ^ ew - 1 else b2n (decide (a = b)) % 2 ^ ew), b2n (decide (a < b)))
+
 end Lib.LSpec
